@@ -181,7 +181,7 @@ func vRelease(L, maxQ int) {
 	vReach("end")
 }
 
-//verif:check C07 stubs=env,valuefile,abslog reach=rejected,dirty,end desc="a non-leader rejects every task except dirty reads with NotLeaderError{Lost:false} and appends nothing; a leader in transfer or demoted rejects with InProgressError and appends nothing" bounds="batch of up to 3 tasks of any kind"
+//verif:check C07,C16 stubs=env,valuefile,abslog reach=rejected,dirty,end desc="a non-leader rejects every task except dirty reads with NotLeaderError{Lost:false} and appends nothing; a leader in transfer or demoted rejects with InProgressError and appends nothing" bounds="batch of up to 3 tasks of any kind"
 func VH_C07_reject() {
 	r, l, _ := vMkLeader(2, 2, true)
 	cfg := r.configs.Latest
